@@ -180,6 +180,11 @@ impl Repr {
             self as *const _ as *const u8
         };
 
+        #[cfg(feature = "verif-hooks")]
+        if self.is_heap_buffer() {
+            crate::verif_hooks::note(crate::verif_hooks::NOTE_READ_TEXT, ptr);
+        }
+
         // SAFETY: data (`ptr`) is valid, aligned, and part of the same contiguous allocated `len`
         // chunk
         unsafe { slice::from_raw_parts(ptr, len) }
@@ -634,6 +639,8 @@ impl Repr {
             // SAFETY: We just checked that `self` is HeapBuffer
             let heap = unsafe { self.as_heap_buffer() };
             debug_assert!(heap.is_unique());
+            #[cfg(feature = "verif-hooks")]
+            crate::verif_hooks::note(crate::verif_hooks::NOTE_WRITE_TEXT, ptr);
             (ptr, heap.capacity())
         } else {
             let ptr = self as *mut _ as *mut u8;
